@@ -75,7 +75,7 @@ def _parse_vsg(so):
                 cur["sev"][m.group(1)] = int(m.group(2))
             parts = ln.split(" | ")
             if len(parts) >= 4 and parts[0].startswith("  ") and parts[2].strip().isdigit():
-                cur["rows"].append((parts[0].strip(), int(parts[2].strip()), " | ".join(parts[3:]), parts[1].strip()))
+                cur["rows"].append((parts[0].strip(), int(parts[2].strip()), " | ".join(parts[3:]).strip(), parts[1].strip()))
         i += 1
     return files
 
@@ -85,7 +85,7 @@ def _parse_syntastic(so):
     for ln in so.split("\n"):
         m = re.match(r"(ERROR|WARNING): (.*?)\((\d+)\)([a-z0-9_]+_\d\d\d) -- (.*)$", ln)
         if m:
-            rows.append((m.group(2), m.group(4), int(m.group(3)), m.group(5), m.group(1)))
+            rows.append((m.group(2), m.group(4), int(m.group(3)), m.group(5).strip(), m.group(1)))
     return rows
 
 
@@ -115,7 +115,7 @@ def _parse_junit(path):
                     raw.append(ln)
                     m = re.match(r"([a-z0-9_]+_\d\d\d): (\d+) : (.*)$", ln)
                     if m:
-                        rows.append((m.group(1), int(m.group(2)), m.group(3)))
+                        rows.append((m.group(1), int(m.group(2)), m.group(3).strip()))
             out[tc.get("name")] = {"rows": rows, "raw": raw}
     return out
 
@@ -201,7 +201,7 @@ def analyse(case, names, runs):
     jrows = {}
     sev_of = {}
     for fp, e in jfiles.items():
-        jrows[fp] = sorted((v["rule"], v["linenumber"], v["solution"] or "None") for v in e.get("violations", []))
+        jrows[fp] = sorted((v["rule"], v["linenumber"], (v["solution"] or "None").strip()) for v in e.get("violations", []))
         for v in e.get("violations", []):
             sev_of[(fp, v["rule"])] = v["severity"]
     # processing errors
@@ -291,7 +291,7 @@ def analyse(case, names, runs):
         for e in q:
             fp = e["location"]["path"]
             rule, _, sol = e["description"].partition(" :: ")
-            qrows.setdefault(fp, []).append((rule, e["location"]["lines"]["begin"], sol))
+            qrows.setdefault(fp, []).append((rule, e["location"]["lines"]["begin"], sol.strip()))
         for n in processed:
             if sorted(qrows.get(n, [])) != jrows[n]:
                 V.append(("quality-vs-json:rows-differ", {"file": n, "n": [len(qrows.get(n, [])), len(jrows[n])]}))
